@@ -3,9 +3,11 @@
 import json, sys
 pid = sys.argv[1]; n = sys.argv[2] if len(sys.argv) > 2 else "a"
 p = next(json.loads(l) for l in open("/verif/properties.jsonl") if json.loads(l)["id"] == pid)
+AVOID = sys.argv[3] if len(sys.argv) > 3 else ""
+avoid_txt = ("\nOther reviewers have already produced changes at these sites for this property - choose DIFFERENT code sites and mechanisms: " + AVOID + "\n") if AVOID else ""
 print(f"""You are testing how well a Rust library's behaviour is protected against subtle regressions. The library is the scylladb/scylla-rust-driver workspace, checked out as a git repository at /repo (do NOT modify /repo itself, and do not read or use anything under /verif). Work only in your own scratch git worktree, which you create with:
     git -C /repo worktree add /tmp/seed-{pid}-{n} HEAD
-and output directory /tmp/seed-out/{pid}-{n}/ . Disk space is tight: do NOT copy /repo/target; instead export CARGO_TARGET_DIR=/tmp/seed-target (a build directory shared with other workers like you - cargo serialises builds on it, so a build may wait a minute on 'Blocking waiting for file lock'; never delete it). Keep whatever you write small and delete scratch files when done. Build and test offline: `cargo test --offline ...` (no network is available). Ignore the harmless conda warning every shell command prints.
+and output directory /tmp/seed-out/{pid}-{n}/ . Disk space is tight: do NOT copy /repo/target. Use a PRIVATE build directory and no debuginfo: `export CARGO_TARGET_DIR=/tmp/seed-{pid}-{n}-target CARGO_PROFILE_DEV_DEBUG=0 CARGO_PROFILE_TEST_DEBUG=0` for every cargo command (a build directory shared between worktrees silently links other workers' artefacts), and delete it when you are done. Keep whatever you write small and delete scratch files when done. Build and test offline: `cargo test --offline ...` (no network is available). Ignore the harmless conda warning every shell command prints.
 
 Here is a semantic property of the library that should always hold:
 
@@ -14,7 +16,7 @@ Here is a semantic property of the library that should always hold:
   QUANTIFIED OVER: {p['quantifier']['text']}
   CODE AREAS: {', '.join(p['anchors']['files'])}
 
-Your task: produce TWO different, realistic source changes to the library (each one separately) that BREAK this property while the code still compiles and the repository's existing tests still pass. They must look like plausible mistakes a maintainer could make in a refactor or optimisation (an off-by-one at a boundary, a check moved after the action it guards, state updated in the wrong order, a stale value reused, a wrong comparison, two sites that each look fine alone), and they must need something SPECIFIC to manifest - a particular interleaving or ordering of events, a fault at a particular point, a multi-step sequence of operations, an unusual input shape or boundary value, or two cooperating sites - not something ordinary use or the existing unit tests would expose at once. The two changes should exercise different mechanisms / code sites behind the property. Do not touch test code, and do not add or change anything under scylla/src/verif/ or any `cfg(scylla_verif)` block.
+Your task: produce TWO different, realistic source changes to the library (each one separately) that BREAK this property while the code still compiles and the repository's existing tests still pass. They must look like plausible mistakes a maintainer could make in a refactor or optimisation (an off-by-one at a boundary, a check moved after the action it guards, state updated in the wrong order, a stale value reused, a wrong comparison, two sites that each look fine alone), and they must need something SPECIFIC to manifest - a particular interleaving or ordering of events, a fault at a particular point, a multi-step sequence of operations, an unusual input shape or boundary value, or two cooperating sites - not something ordinary use or the existing unit tests would expose at once. The two changes should exercise different mechanisms / code sites behind the property. {avoid_txt}Do not touch test code, and do not add or change anything under scylla/src/verif/ or any `cfg(scylla_verif)` block.
 
 For EACH change i in {{1,2}} deliver in /tmp/seed-out/{pid}-{n}/change<i>/ :
   - patch.diff : `git diff` of the change against the worktree's HEAD (apply-able with `git apply`), touching library source only;
@@ -22,4 +24,4 @@ For EACH change i in {{1,2}} deliver in /tmp/seed-out/{pid}-{n}/change<i>/ :
   - README.md (short): what the change does, why it breaks the property, exactly what is needed for it to manifest, which existing tests you ran and their result.
 Verify yourself: (a) with the change applied the relevant crates' existing tests still pass - run at least `cargo test --offline -p <crate> --lib` for every crate you touched (for the `scylla` crate many tests need a live cluster and fail also on unchanged code; compare against a run on unchanged code and make sure no test that passes unchanged fails with your change); (b) demo.sh fails with the change and passes without it. If a candidate change is caught by an existing test, discard it and find another.
 
-When finished remove your worktree and its build output: `git -C /repo worktree remove --force /tmp/seed-{pid}-{n}`. Reply with a short summary (<= 15 lines) of the two changes and their verification status. Do not paste code.""")
+When finished remove your worktree and its build output: `git -C /repo worktree remove --force /tmp/seed-{pid}-{n}; rm -rf /tmp/seed-{pid}-{n}-target`. Reply with a short summary (<= 15 lines) of the two changes and their verification status. Do not paste code.""")
